@@ -15,17 +15,6 @@
 (***************************************************************************)
 EXTENDS LexemeGen, TokenTable
 
-(* %%XXXX; escapes of Lexemes.text -> the model's character classes *)
-EscClass == [ x \in {"03C0", "03C4", "2107", "03B8", "5909", "6570", "00E9", "00B5", "1F600"} |->
-              CASE x = "00B5" -> "<mu>" [] x = "1F600" -> "<emoji>" [] OTHER -> "<idstart>" ]
-RECURSIVE Decode(_, _)
-Decode(str, i) ==
-  IF i > Len(str) THEN <<>>
-  ELSE IF i + 1 <= Len(str) /\ SubSeq(str, i, i + 1) = "%%" THEN
-         LET j == CHOOSE j \in (i + 2)..Len(str) : SubSeq(str, j, j) = ";" /\ \A m \in (i + 2)..(j - 1) : SubSeq(str, m, m) # ";"
-         IN <<EscClass[SubSeq(str, i + 2, j - 1)]>> \o Decode(str, j + 1)
-       ELSE <<SubSeq(str, i, i)>> \o Decode(str, i + 1)
-ModelChars(str) == Decode(str, 1)
 (* constant-level caches *)
 PoolChars == [i \in 1..NP |-> ModelChars(Pool[i].text)]
 SepChars == [i \in 1..NS |-> ModelChars(Seps[i].t)]
